@@ -50,8 +50,9 @@ ndsize_t EntityWithSourcesHDF5::sourceCount() const {
 }
 
 
-bool EntityWithSourcesHDF5::hasSource(const std::string &id) const {
-    return sources_refs(false) ? sources_refs(false)->hasGroup(id) : false;
+bool EntityWithSourcesHDF5::hasSource(const std::string &name_or_id) const {
+    // has and get agree: a source is attached iff getSource finds it
+    return getSource(name_or_id) != nullptr;
 }
 
 
@@ -59,19 +60,20 @@ std::shared_ptr<ISource> EntityWithSourcesHDF5::getSource(const std::string &nam
     std::shared_ptr<SourceHDF5> source;
     boost::optional<H5Group> g = sources_refs(false);
 
-    std::string id = name_or_id;
-
-    if (!util::looksLikeUUID(name_or_id)) {
-        Block tmp(entity_block);
-        auto found = tmp.findSources(util::NameFilter<Source>(name_or_id));
-
-        if (!found.empty())
-            id = found.front().id();
+    if (!g || name_or_id.empty()) {
+        return source;
     }
 
-    if (g && hasSource(id)) {
-        H5Group group = g->openGroup(id);
-        source = std::make_shared<SourceHDF5>(file(), entity_block, group);
+    // the links are named by the id of their source; a name is looked up among the
+    // ATTACHED sources (names are unique per parent only, not per block)
+    boost::optional<H5Group> group;
+    if (g->hasGroup(name_or_id)) {
+        group = g->openGroup(name_or_id, false);
+    } else {
+        group = g->findGroupByAttribute("name", name_or_id);
+    }
+    if (group) {
+        source = std::make_shared<SourceHDF5>(file(), entity_block, *group);
     }
 
     return source;
